@@ -54,7 +54,7 @@ def place_crash(events):
 def storage_runs(events):
     """per-run compacted storage traces"""
     runs = vlib.split_runs(events)
-    return [storage_events.compact(r) for r in runs]
+    return [storage_events.compact(storage_events.mark_gcrace(r)) for r in runs]
 
 
 def api_crash_runs(events):
